@@ -8,6 +8,7 @@ import RitiModel.Model.Context
 import RitiModel.Model.Okkhor
 import RitiModel.Model.Bijoy
 import RitiModel.Model.Json
+import RitiModel.Model.Regex
 import Std.Data.HashMap
 open Riti Std
 
@@ -268,6 +269,13 @@ def handle (st : St) (line : String) : IO St := do
     let m : HashMap String (List Char) := rows.foldl (fun m r => match r with | [k, v] => m.insert k (unescape v) | _ => m) {}
     return { st with t := { st.t with layouts := st.t.layouts.insert (key (unescape path)) m } }
   | "dict" :: w :: "=" :: ws =>
+    -- correspondence for the Lean model of the dictionary look-up (Model/Regex: okkhor's regex generator, the reader and
+    -- matcher for its syntax, riti's first-letter table): it must reproduce the list the regex crate selected
+    let want := (ws.filter (· ≠ "")).map unescape
+    let st ← (if st.t.dictionary.isEmpty then pure st else
+      match (if (unescape w).length ≤ 14 then Riti.dictSearch else Riti.dictSearchFast) (fun n => st.t.dictionary.getD n []) (unescape w) with
+      | some got => if got == want then pure (bump st "dict-line-agrees") else report st s!"MISMATCH case={st.caseName} line={st.lineNo} dict [{w}]: regex model finds {got.length} words [{" ".intercalate ((got.take 6).map escape)}], the regex crate {want.length} [{" ".intercalate ((want.take 6).map escape)}]"
+      | none => report st s!"MISMATCH case={st.caseName} line={st.lineNo} dict [{w}]: the generated expression is outside the modelled syntax")
     return { st with t := { st.t with dict := st.t.dict.insert (key (unescape w)) (some ((ws.filter (· ≠ "")).map unescape)) } }
   | ["dict", w, "!"] =>
     return { st with t := { st.t with dict := st.t.dict.insert (key (unescape w)) none } }
